@@ -8,3 +8,6 @@ import NutilsVerif.Props.C10
 import NutilsVerif.Props.C12
 import NutilsVerif.Props.C05
 import NutilsVerif.Props.C05Eval
+import NutilsVerif.Props.C13
+import NutilsVerif.Props.C16
+import NutilsVerif.Props.C17
